@@ -158,16 +158,19 @@ def presentations(inst, tier):
         s_orders = list(itertools.permutations(range(n)))
         r_orders = None
     if r_orders is None:
+        # deviation bound on the R list: identity, reversal, every single adjacent transposition and
+        # (n<=2 only) every pair of them
         base_r = list(range(nR))
         r_orders = [base_r, base_r[::-1]]
         for i in range(nR - 1):
             o = list(base_r)
             o[i], o[i + 1] = o[i + 1], o[i]
             r_orders.append(o)
-            for j in range(i + 1, nR - 1):
-                o2 = list(o)
-                o2[j], o2[j + 1] = o2[j + 1], o2[j]
-                r_orders.append(o2)
+            if n <= 2:
+                for j in range(i + 1, nR - 1):
+                    o2 = list(o)
+                    o2[j], o2[j + 1] = o2[j + 1], o2[j]
+                    r_orders.append(o2)
     for so in s_orders:
         for ro in r_orders:
             if not inst.expect(back(run_mc(c, mk(k, ident, S_order=list(so), R_order=list(ro)), f), ident),
@@ -351,7 +354,7 @@ def scope(tier, seed):
                              'unreachable extensions',
             'closure orders': 'LTL: representatives of K(<=2) x size<=2 formulas: all permutations inside '
                               'height tie groups when <= %d orders, else <=2 adjacent transpositions'
-                              % (120 if tier == 'quick' else 5040),
+                              % (120 if tier == 'quick' else 720),
             'successor orders': 'K(<=2) reps and K(3,{p}) reps: every successor-set order x 2 node orders',
             '4 states': 'all 24 renamings of: functional graphs x {p,q}-labellings (quick: a seed block), '
                         'all total graphs with p everywhere / missing once',
@@ -418,7 +421,7 @@ def run_shard(shard, tier, seed, acc):
         if tier == 'quick':
             gs = spaces.path_by_size(1, spaces.LEAVES2) + spaces.path_by_size(2, spaces.LEAVES2)[(seed % 24)::24]
         else:
-            gs = spaces.path_by_size(1, spaces.LEAVES2) + spaces.path_by_size(2, spaces.LEAVES2)[::2]
+            gs = spaces.path_by_size(1, spaces.LEAVES2) + spaces.path_by_size(2, spaces.LEAVES2)[(seed % 6)::6]
         for k in reps:
             for g in gs:
                 if deadline_passed():
@@ -427,7 +430,7 @@ def run_shard(shard, tier, seed, acc):
                 f = ('A', g)
                 inst = Inst(k, 'LTL', f, acc)
                 if inst.base[0] == 'set':
-                    closure_orders(k, f, acc, inst, 120 if tier == 'quick' else 5040)
+                    closure_orders(k, f, acc, inst, 120 if tier == 'quick' else 720)
         acc.sample({'k': reps[0].to_json(), 'formula': 'A(G(p) or F(q))', 'orders': 'tie-group permutations'})
         return
     if kind in ('succ2', 'succ3'):
